@@ -37,6 +37,9 @@ theorem tie_routeOptions :
 theorem tie_serverAddRoutes :
     serverAddRoutes = ["r := featuredRoutes{ routes: rs, }", "range opts {", "opt(&r)", "}", "s.ngin.addRoutes(r)"] := by decide
 
+/-- `AddRoute(r, opts...)` delegates to `AddRoutes` with the one route and ALL its options, in order -/
+theorem tie_serverAddRoute : serverAddRoute = ["s.AddRoutes([]Route{r}, opts...)"] := by decide
+
 /-- `addRoutes`: append the group; `ng.timeout` becomes the maximum (model: `Eng.addRoutes`) -/
 theorem tie_engAddRoutes :
     engAddRoutes = ["if r.sse {", "r.routes = buildSSERoutes(r.routes)", "}", "ng.routes = append(ng.routes, r)",
